@@ -81,6 +81,7 @@ type TxSpec struct {
 	Replay    bool      `json:"replay,omitempty"` // re-deliver the last bytes this signer produced (duplicate)
 	Check     bool      `json:"check,omitempty"`  // pass through CheckTx first (admission recorded); delivered regardless unless CheckOnly
 	CheckOnly bool      `json:"check_only,omitempty"`
+	SimOnly   bool      `json:"sim_only,omitempty"` // only gas-simulated (/app/simulate), as a wallet does before signing; never delivered
 	Tag       string    `json:"tag,omitempty"`
 }
 
